@@ -255,4 +255,239 @@ theorem term_stepResolve (m : M) (c i : Nat) : potential (stepResolve m c i) ≤
           rw [potential_congr (m := resolverOn m1 (m1.data k).target arg) hcg.1 hcg.2]
           exact potential_of_drop ⟨by omega, by omega, by omega, by omega⟩
 
+def pushRej (m : M) (d n : Nat) : M := { m with stack := walk Act.rejectReq d n ++ m.stack }
+
+theorem meas_pushWalkRej (m : M) (d n : Nat) (hn : n ≤ (meas m).one) :
+    (meas (pushRej m d n)).len ≤ (meas m).len + (meas m).one ∧ (meas (pushRej m d n)).att = (meas m).att ∧
+    (meas (pushRej m d n)).one = (meas m).one ∧ (meas (pushRej m d n)).uns = (meas m).uns ∧ (meas (pushRej m d n)).prm = (meas m).prm := by
+  refine ⟨?_, nAtt_walk _ (fun _ _ => rfl) _ _ _, rfl, rfl, rfl⟩
+  show (walk Act.rejectReq d n ++ m.stack).length ≤ m.stack.length + tally fOne m.cores
+  rw [List.length_append, walk_length]
+  have : n ≤ tally fOne m.cores := hn
+  omega
+
+theorem term_stepReject (m : M) (c i : Nat) : potential (stepReject m c i) ≤ potential m := by
+  unfold stepReject
+  simp only
+  split
+  · exact Nat.le_refl _
+  · rename_i r hget
+    have hget : rq m.cores c i = some r := hget
+    split
+    · exact Nat.le_refl _
+    · rename_i hjc'
+      have hjc : r.jc = 0 := by omega
+      generalize (m.core c).st.exc = e
+      obtain ⟨r', hr'⟩ : ∃ r', r' = ({ r with jc := r.jc + 1 } : Req) := ⟨_, rfl⟩
+      have hk' : r'.kind = r.kind := by rw [hr']
+      have hrc' : r'.rc = r.rc := by rw [hr']
+      have hjc1 : r'.jc = r.jc + 1 := by rw [hr']
+      rw [← hr']
+      clear hr'
+      obtain ⟨m1, hm1⟩ : ∃ m1, m1 = m.setCore c (setReq (m.core c) i r') := ⟨_, rfl⟩
+      have hms := meas_setReq m c i r r' hget
+      have hreqs : ∀ d, (m1.core d).reqs.length ≤ (meas m).one := by
+        intro d
+        have h1 := reqs_le_total m1.cores d
+        have h2 : tally fOne m1.cores + fOne r = tally fOne m.cores + fOne r' := by rw [hm1]; exact tally_setReq fOne m.cores c i r r' hget
+        have : fOne r' = fOne r := rfl
+        show (m1.cores.getD d {}).reqs.length ≤ tally fOne m.cores
+        omega
+      have hreqs0 : (m.core c).reqs.length ≤ (meas m).one := reqs_le_total m.cores c
+      rw [← hm1] at hms ⊢
+      clear hm1
+      have h1 := one_pos hget
+      have hfo : fOne r' = fOne r := rfl
+      have hfu : fUns r' + 1 = fUns r := by unfold fUns; rw [hrc', hjc1, hjc]; simp
+      have hfp' : fProm r' = fProm r := by simp only [fProm, retPromise_congr hk', hrc']
+      obtain ⟨e1, e2, e3, e4, e5⟩ := hms
+      have hone : (meas m1).one = (meas m).one := by omega
+      cases hk : r.kind with
+      | user cb ret rej =>
+        simp only
+        cases rej with
+        | rethrow =>
+          simp only
+          have hw := meas_rejectAndWalk m1 r.chain e
+          exact potential_of_drop ⟨by omega, by omega, by omega, by omega⟩
+        | ignore =>
+          cases ret with
+          | value dd =>
+            simp only
+            have hw := meas_pushWalkRej m1 r.chain (m1.core r.chain).reqs.length (by rw [hone]; exact hreqs _)
+            rw [potential_congr (m := pushRej m1 r.chain (m1.core r.chain).reqs.length) (by rfl) (by rfl)]
+            exact potential_of_drop ⟨by omega, by omega, by omega, by omega⟩
+          | void => simp only; exact potential_of_drop ⟨by omega, by omega, by omega, by omega⟩
+          | promise q =>
+            simp only
+            have hw := meas_pushWalkRej m1 c (m.core c).reqs.length (by rw [hone]; exact hreqs0)
+            rw [potential_congr (m := pushRej m1 c (m.core c).reqs.length) (by rfl) (by rfl)]
+            exact potential_of_drop ⟨by omega, by omega, by omega, by omega⟩
+        | custom cb' =>
+          cases ret with
+          | value dd =>
+            simp only
+            have hw := meas_pushWalkRej m1 r.chain (m1.core r.chain).reqs.length (by rw [hone]; exact hreqs _)
+            rw [potential_congr (m := pushRej m1 r.chain (m1.core r.chain).reqs.length) (by rfl) (by rfl)]
+            exact potential_of_drop ⟨by omega, by omega, by omega, by omega⟩
+          | void =>
+            simp only
+            rw [potential_congr (m := m1) (by rfl) (by rfl)]
+            exact potential_of_drop ⟨by omega, by omega, by omega, by omega⟩
+          | promise q =>
+            simp only
+            have hw := meas_pushWalkRej m1 c (m.core c).reqs.length (by rw [hone]; exact hreqs0)
+            rw [potential_congr (m := pushRej m1 c (m.core c).reqs.length) (by rfl) (by rfl)]
+            exact potential_of_drop ⟨by omega, by omega, by omega, by omega⟩
+      | chainer =>
+        simp only
+        have hw := meas_rejectAndWalk m1 r.chain e
+        exact potential_of_drop ⟨by omega, by omega, by omega, by omega⟩
+      | allInput k idx =>
+        simp only
+        split
+        · exact potential_of_drop ⟨by omega, by omega, by omega, by omega⟩
+        · have hw := meas_rejectionOn m1 (m1.data k).target e
+          have hcg := rejectionOn_congr m1 (m1.setData k { m1.data k with rejected := true }) (m1.data k).target e rfl rfl
+          rw [potential_congr (m := rejectionOn m1 (m1.data k).target e) hcg.1 hcg.2]
+          exact potential_of_drop ⟨by omega, by omega, by omega, by omega⟩
+      | anyInput k =>
+        simp only
+        split
+        · exact potential_of_drop ⟨by omega, by omega, by omega, by omega⟩
+        · have hw := meas_rejectionOn m1 (m1.data k).target e
+          have hcg := rejectionOn_congr m1 (m1.setData k { m1.data k with rejected := true }) (m1.data k).target e rfl rfl
+          rw [potential_congr (m := rejectionOn m1 (m1.data k).target e) hcg.1 hcg.2]
+          exact potential_of_drop ⟨by omega, by omega, by omega, by omega⟩
+
+variable {roots : List Nat}
+
+theorem retPromise_settler {r : Req} (h : r.retPromise = true) : r.settler = true := user_settler (retPromise_user h)
+
+/-- every step with something to do decreases the potential -/
+theorem term_step (m : M) (o : Own roots m) (hne : m.stack ≠ []) : potential (step m) < potential m := by
+  rw [step_eq]
+  split
+  · rename_i hnil; exact absurd hnil hne
+  · rename_i p r rest hst
+    have ha := o.s (.attach p r) (by rw [hst]; exact List.mem_cons_self)
+    have hw := meas_thenOn { m with stack := rest } p r
+    have hfu : fUns r = 2 := by unfold fUns; rw [ha.2.1, ha.2.2]; rfl
+    have hfp : fProm r = 0 := by
+      unfold fProm; split
+      · rename_i hh; have := retPromise_settler hh.1; rw [ha.1] at this; cases this
+      · rfl
+    have hfo : fOne r = 1 := rfl
+    rw [hfu, hfp, hfo] at hw
+    obtain ⟨w1, w2, w3, w4, w5⟩ := hw
+    rw [potential_eq, potential_eq]
+    have hm : meas m = ⟨rest.length + 1, nAtt rest + 1, tally fOne m.cores, tally fUns m.cores, tally fProm m.cores⟩ := by
+      unfold meas; rw [hst, nAtt_cons]; simp [isAttach]; omega
+    have hm0 : meas { m with stack := rest } = ⟨rest.length, nAtt rest, tally fOne m.cores, tally fUns m.cores, tally fProm m.cores⟩ := rfl
+    rw [hm0] at w1 w2 w3 w4 w5
+    rw [hm]
+    simp only at w1 w2 w3 w4 w5 ⊢
+    generalize (meas (thenOn { m with stack := rest } p r)).len = l' at *
+    generalize (meas (thenOn { m with stack := rest } p r)).att = a' at *
+    generalize (meas (thenOn { m with stack := rest } p r)).one = o' at *
+    generalize (meas (thenOn { m with stack := rest } p r)).uns = u' at *
+    generalize (meas (thenOn { m with stack := rest } p r)).prm = p' at *
+    subst w2
+    have hB : o' + nAtt rest + p' + 1 ≤ tally fOne m.cores + (nAtt rest + 1) + tally fProm m.cores + 1 := by omega
+    have hU : u' + 3 * nAtt rest + 2 * p' + 1 ≤ tally fUns m.cores + 3 * (nAtt rest + 1) + 2 * tally fProm m.cores := by omega
+    have h1 := Nat.mul_le_mul hB (Nat.le_of_succ_le_succ (Nat.succ_le_succ (Nat.le_of_lt_succ (Nat.lt_succ_of_le (Nat.le_refl (u' + 3 * nAtt rest + 2 * p'))))))
+    have h2 : (tally fOne m.cores + (nAtt rest + 1) + tally fProm m.cores + 1) * (u' + 3 * nAtt rest + 2 * p' + 1)
+        ≤ (tally fOne m.cores + (nAtt rest + 1) + tally fProm m.cores + 1) * (tally fUns m.cores + 3 * (nAtt rest + 1) + 2 * tally fProm m.cores) :=
+      Nat.mul_le_mul_left _ hU
+    have h3 : (tally fOne m.cores + (nAtt rest + 1) + tally fProm m.cores + 1) * (u' + 3 * nAtt rest + 2 * p' + 1)
+        = (tally fOne m.cores + (nAtt rest + 1) + tally fProm m.cores + 1) * (u' + 3 * nAtt rest + 2 * p') + (tally fOne m.cores + (nAtt rest + 1) + tally fProm m.cores + 1) := by
+      rw [Nat.mul_add, Nat.mul_one]
+    omega
+  · rename_i c i rest hst
+    have h1 := term_stepResolve { m with stack := rest } c i
+    have h2 : potential m = potential { m with stack := rest } + 1 := by
+      unfold potential nBound nUns nReq; rw [hst, nAtt_cons]; simp [isAttach]; omega
+    omega
+  · rename_i c i rest hst
+    have h1 := term_stepReject { m with stack := rest } c i
+    have h2 : potential m = potential { m with stack := rest } + 1 := by
+      unfold potential nBound nUns nReq; rw [hst, nAtt_cons]; simp [isAttach]; omega
+    omega
+
+theorem stack_le_potential (m : M) : m.stack.length ≤ potential m := by unfold potential; omega
+
+/-- with at least `potential m` units of fuel the cascade runs to completion -/
+theorem run_quiescent (f : Nat) (m : M) (o : Own roots m) (h : potential m ≤ f) : (run f m).stack = [] := by
+  induction f generalizing m with
+  | zero =>
+    have := stack_le_potential m
+    have hl : m.stack.length = 0 := by omega
+    simp only [run]
+    exact List.length_eq_zero_iff.mp hl
+  | succ f ih =>
+    unfold run
+    split
+    · rename_i he; exact List.isEmpty_iff.mp he
+    · rename_i he
+      have hne : m.stack ≠ [] := by intro e; rw [e] at he; exact he rfl
+      have := term_step m o hne
+      exact ih (step m) (own_step m o) (by omega)
+
+theorem foldl_reqs (cs : List Core) (a : Nat) :
+    cs.foldl (fun s c => s + 2 * c.reqs.length + 1) a = a + 2 * tally fOne cs + cs.length := by
+  induction cs generalizing a with
+  | nil => simp [tally]
+  | cons x xs ih =>
+    simp only [List.foldl_cons, List.length_cons]
+    rw [ih]
+    have hx : (x.reqs.map fOne).sum = x.reqs.length := by
+      generalize x.reqs = rs; induction rs with | nil => rfl | cons y ys ih2 => simp only [List.map_cons, List.sum_cons, List.length_cons, fOne] at *; omega
+    have : tally fOne (x :: xs) = x.reqs.length + tally fOne xs := by unfold tally; simp only [List.map_cons, List.sum_cons]; rw [hx]
+    rw [this]; omega
+
+theorem nAtt_le (st : List Act) : nAtt st ≤ st.length := by unfold nAtt; exact List.countP_le_length
+
+/-- the fuel of `settleDown` is at least the potential -/
+theorem potential_le_fuel (m : M) : potential m ≤ fuelFor m := by
+  have hU : tally fUns m.cores ≤ 2 * tally fOne m.cores := by
+    have := tally_le fUns (fun _ => 2) m.cores (fun _ _ r _ => by unfold fUns; split <;> split <;> omega)
+    have h2 : tally (fun _ => 2) m.cores = 2 * tally fOne m.cores := by
+      unfold tally
+      induction m.cores with
+      | nil => rfl
+      | cons x xs ih =>
+        simp only [List.map_cons, List.sum_cons]
+        have hx : (x.reqs.map fun _ => 2).sum = 2 * (x.reqs.map fOne).sum := by
+          generalize x.reqs = rs; induction rs with | nil => rfl | cons y ys ih2 => simp only [List.map_cons, List.sum_cons, fOne] at *; omega
+        omega
+    omega
+  have hP : tally fProm m.cores ≤ tally fOne m.cores := tally_le _ _ _ (fun _ _ r _ => by unfold fProm fOne; split <;> omega)
+  have hA := nAtt_le m.stack
+  unfold fuelFor
+  simp only []
+  rw [foldl_reqs]
+  unfold potential nBound nUns nReq
+  generalize tally fOne m.cores = R at *
+  generalize tally fUns m.cores = U at *
+  generalize tally fProm m.cores = P at *
+  generalize nAtt m.stack = A at *
+  generalize m.stack.length = S at *
+  generalize m.cores.length = C at *
+  have hr1 : R + A + P + 1 ≤ 0 + 2 * R + C + 2 * S + 4 := by omega
+  have hr2 : U + 3 * A + 2 * P ≤ 2 * (0 + 2 * R + C + 2 * S + 4) := by omega
+  have hmul := Nat.mul_le_mul hr1 hr2
+  have hS : S ≤ (0 + 2 * R + C + 2 * S + 4) * (0 + 2 * R + C + 2 * S + 4) := by
+    have h4 : 1 ≤ 0 + 2 * R + C + 2 * S + 4 := by omega
+    have := Nat.mul_le_mul h4 (Nat.le_refl (0 + 2 * R + C + 2 * S + 4))
+    omega
+  have e1 : (0 + 2 * R + C + 2 * S + 4) * (2 * (0 + 2 * R + C + 2 * S + 4)) = 2 * ((0 + 2 * R + C + 2 * S + 4) * (0 + 2 * R + C + 2 * S + 4)) := by
+    rw [Nat.mul_left_comm]
+  have e2 : 4 * (0 + 2 * R + C + 2 * S + 4) * (0 + 2 * R + C + 2 * S + 4) = 4 * ((0 + 2 * R + C + 2 * S + 4) * (0 + 2 * R + C + 2 * S + 4)) := by
+    rw [Nat.mul_assoc]
+  omega
+
+/-- the cascade of every operation runs to completion within the fuel -/
+theorem settle_quiescent (m : M) (o : Own roots m) : (run (fuelFor m) m).stack = [] :=
+  run_quiescent (fuelFor m) m o (potential_le_fuel m)
+
 end Pistache.Promise
